@@ -17,7 +17,7 @@ def model_session(res, wd, pid, variants, props):
     """Exhaustive model checking of System.tla for the given constant variants; every model
     counterexample is replayed on the real sessions before it counts."""
     for name, over in variants:
-        held, cex = engines.mc_system(res, wd, name, over)
+        held, cex = engines.mc_system(res, wd, name, over, timeout=900 if res.tier == "quick" else 2700)
         if not held:
             engines.confirm_on_impl(res, pid, wd, name, cex, props)
 
@@ -672,7 +672,7 @@ def c11(res, wd):
                 ("d01_2locals", dict(EAGER, MaxFrame=2, DelayValues="{0, 1}", Peers="GenPeers21", NumPlayers=3))]
     if res.tier == "thorough":
         variants += [("d01_f3", dict(EAGER, MaxFrame=3, DelayValues="{0, 1}")),
-                     ("d012_f3_w1", dict(EAGER, MaxFrame=3, DelayValues="{0, 1, 2}", Window=1)),
+                     ("d02_f3_w1", dict(EAGER, MaxFrame=3, DelayValues="{0, 2}", Window=1)),
                      ("d02_lockstep", dict(EAGER, MaxFrame=3, DelayValues="{0, 2}", Window=0))]
     model_session(res, wd, "C11", variants, {"C11", "C01", "C03"})
     # regression / non-vacuity: the two pinned behaviours must violate the monitor in the model
